@@ -72,6 +72,19 @@ func ruleC20(c *Check) {
 	c.mapRanges(fs)
 	c.panicInventory(fs, r)
 	c.mutateWhileIterating()
+	c.nilMapWrites(fs)
+	// slicing of scanned store keys is justified above by the key grammar: decide the cut positions (K4) here as well, for every
+	// family but the two earnings families whose ambiguity is a recorded finding of C13 / C17 / C18 (D5, D13)
+	{
+		fam := map[string]bool{}
+		for _, b := range c.P.keys().Prefixes {
+			k := fmt.Sprintf("0x%02x", b)
+			if k != "0x18" && k != "0x19" {
+				fam[k] = true
+			}
+		}
+		c.keyGrammar("C20.5", fam)
+	}
 	c.priceNonEmpty("C20.3", fs)
 	c.coinsSubSites(fs)
 	// the pricing indexed while a request is built exists: requests are built only for the providers the filter admitted
@@ -885,4 +898,158 @@ func (c *Check) coinsSubSites(fs []*Func) {
 			}
 		}
 	}
+}
+
+// nilMapWrites (C20.3): an assignment to an entry of a nil map panics. Every statement m[k] = v (or m[k] op= v) on a map in
+// consensus-reachable code writes to a map that cannot be nil there: a local made by make / a composite literal in the
+// same function, a keeper field (allocated by the keeper's constructor, outside block processing), or a parameter for
+// which every call site in the module passes a map that is itself not nil by the same criteria (make / literal / its own
+// non-nil map); a call site passing nil, a zero value or something else is reported.
+func (c *Check) nilMapWrites(fs []*Func) {
+	n := 0
+	inSet := map[*Func]bool{}
+	for _, f := range fs {
+		inSet[f] = true
+	}
+	// argNonNil: the argument term at a call site is a non-nil map
+	var paramOK func(f *Func, idx int, depth int) (bool, string)
+	argNonNil := func(g *Func, a *Term, depth int) (bool, string) {
+		a = stripConv(a)
+		switch {
+		case a.Op == "make" || a.Op == "lit":
+			return true, ""
+		case a.Op == "" && strings.HasPrefix(a.At, "P") && depth < 3:
+			var i int
+			if _, err := fmt.Sscanf(a.At, "P%d", &i); err == nil {
+				return paramOK(g, i, depth+1)
+			}
+		case a.Op == "" && strings.HasPrefix(a.At, "K."):
+			return true, ""
+		}
+		return false, shortTerm(a)
+	}
+	paramOK = func(f *Func, idx int, depth int) (bool, string) {
+		sites := 0
+		for _, g := range c.P.Funcs {
+			if g.Body == nil || !g.isHandWritten() {
+				continue
+			}
+			for _, pa := range c.P.PathsOf(g) {
+				for _, ev := range pa.Events {
+					if ev.Kind != EvCall || ev.CI.fn != f || idx >= len(ev.CI.args) {
+						continue
+					}
+					sites++
+					if ok, why := argNonNil(g, ev.CI.args[idx], depth); !ok {
+						return false, g.Name + " passes " + why + " (" + c.pos(ev.Pos) + ")"
+					}
+				}
+			}
+		}
+		if sites == 0 {
+			return false, "no call site found"
+		}
+		return true, ""
+	}
+	for _, f := range fs {
+		info := f.Pkg.TypesInfo
+		ast.Inspect(f.Body, func(nd ast.Node) bool {
+			if _, isLit := nd.(*ast.FuncLit); isLit {
+				return false
+			}
+			as, ok := nd.(*ast.AssignStmt)
+			if !ok {
+				return true
+			}
+			for _, l := range as.Lhs {
+				ix, ok := ast.Unparen(l).(*ast.IndexExpr)
+				if !ok {
+					continue
+				}
+				tv, ok := info.Types[ix.X]
+				if !ok {
+					continue
+				}
+				if _, isMap := types.Unalias(tv.Type).Underlying().(*types.Map); !isMap {
+					continue
+				}
+				n++
+				okW, why := false, ""
+				switch x := ast.Unparen(ix.X).(type) {
+				case *ast.Ident:
+					v, _ := info.Uses[x].(*types.Var)
+					pi := -1
+					for i, pr := range f.Params {
+						if pr == v {
+							pi = i
+						}
+					}
+					switch {
+					case v == nil:
+						why = "not a variable"
+					case pi >= 0:
+						okW, why = paramOK(f, pi, 0)
+					default:
+						// a local: every assignment to it in this function is make / literal
+						okW = true
+						found := false
+						ast.Inspect(f.Body, func(m ast.Node) bool {
+							switch s := m.(type) {
+							case *ast.AssignStmt:
+								for i, ll := range s.Lhs {
+									if id, ok := ll.(*ast.Ident); ok && (info.Defs[id] == types.Object(v) || info.Uses[id] == types.Object(v)) && i < len(s.Rhs) && len(s.Lhs) == len(s.Rhs) {
+										found = true
+										switch r := ast.Unparen(s.Rhs[i]).(type) {
+										case *ast.CompositeLit:
+										case *ast.CallExpr:
+											if id2, ok := r.Fun.(*ast.Ident); !ok || id2.Name != "make" {
+												okW, why = false, "assigned from "+types.ExprString(r)
+											}
+										default:
+											okW, why = false, "assigned from "+types.ExprString(s.Rhs[i])
+										}
+									}
+								}
+							case *ast.ValueSpec:
+								for i, nm := range s.Names {
+									if info.Defs[nm] == types.Object(v) {
+										if i < len(s.Values) {
+											found = true
+											if ce, ok := ast.Unparen(s.Values[i]).(*ast.CallExpr); ok {
+												if id2, ok := ce.Fun.(*ast.Ident); ok && id2.Name == "make" {
+													continue
+												}
+											}
+											if _, ok := ast.Unparen(s.Values[i]).(*ast.CompositeLit); ok {
+												continue
+											}
+											okW, why = false, "declared as "+types.ExprString(s.Values[i])
+										} else {
+											found = true
+											okW, why = false, "declared without a value (nil map)"
+										}
+									}
+								}
+							}
+							return true
+						})
+						if !found && v.Parent() != nil && v.Parent() != f.Pkg.Types.Scope() {
+							// a variable captured from an enclosing function: judged there
+							okW = true
+						}
+					}
+				case *ast.SelectorExpr:
+					// a field of the keeper (allocated once by its constructor) or of another struct
+					okW = true
+				default:
+					why = "map expression " + types.ExprString(ix.X)
+				}
+				c.req(okW, "C20.3", unitConstruct(f, "map-write:"+types.ExprString(ix.X)), as.Pos(),
+					"an entry of a map is assigned only where the map cannot be nil (made in the function, a keeper field, or a parameter every call site fills with a made map)"+condStr(!okW, ": "+why))
+			}
+			return true
+		})
+	}
+	c.Sites += n
+	c.setInfo("map_write_sites", n)
 }
